@@ -10,8 +10,17 @@
 (* ffSampling pass (one per tree-leaf coordinate), i.e. accepted = 2n * (norm attempts); and the traversal order of the   *)
 (* tree: "first_pass_sigmas" (widths of the accepted samples of the first pass, in call order) against "leaves" (the key's *)
 (* leaves in pre-order): right subtree first, two samples per leaf.                                                   *)
+(* "leaf_product": the product of the squared leaves times (q / sigma^2)^n is 1 (up to 2^-30): the leaves under a node of the  *)
+(* ffLDL tree multiply to the field norm of that node's Gram determinant, so all 2n leaf variances multiply to               *)
+(* N(det G) = q^(2n), whatever the key; the stored leaves are sigma / sqrt(d).  This ties the tree to the parameter sigma of   *)
+(* Params.tla and to det(B) = q exactly, not within a statistical window.                                                     *)
 EXTENDS SamplerZ, Params, TraceLib
 VARIABLES l, bad
+SigmaBitsOf(n) == IF n = 512 THEN Sigma512Bits ELSE Sigma1024Bits
+LeafProduct(leaves, n) ==
+  LET sg == FFromWords(SigmaBitsOf(n))
+      c == FDiv(FFromInt(12289), FMul(sg, sg))
+  IN FoldLeft(LAMBDA acc, w : LET x == FFromWords(w) IN FMul(FMul(FMul(acc, x), x), c), FOne, leaves)
 vars == <<l, bad>>
 Judge(e) ==
   IF e.ev = "callsum" THEN
@@ -20,8 +29,9 @@ Judge(e) ==
     LET nl == Len(e.leaves)
         order == Len(e.first_pass_sigmas) = 2 * nl /\
                  \A k \in 1..nl : e.first_pass_sigmas[2 * k - 1] = e.leaves[nl - k + 1] /\ e.first_pass_sigmas[2 * k] = e.leaves[nl - k + 1]
-    IN [ok |-> e.returned /\ e.accepted = 2 * e.n * e.attempts /\ e.iters >= e.accepted /\ nl = e.n /\ order,
-        branch |-> "call-n" \o ToString(e.n), detail |-> <<e.accepted, e.iters, order>>]
+        prod == nl = e.n /\ FClose(LeafProduct(e.leaves, e.n), FOne, 30)
+    IN [ok |-> e.returned /\ e.accepted = 2 * e.n * e.attempts /\ e.iters >= e.accepted /\ nl = e.n /\ order /\ prod,
+        branch |-> "call-n" \o ToString(e.n), detail |-> <<e.accepted, e.iters, order, prod>>]
   ELSE
     LET glue == SpecIterGlue(FFromWords(e.mu), FFromWords(e.sigma), FFromWords(e.sigmin), e.z0, e.b)
         be == SpecBerExp(FFromWords(e.x), FFromWords(e.ccs), e.bytes)
